@@ -295,11 +295,8 @@ impl Space for Pairs {
 }
 
 pub fn spaces(tier: Tier, _seed: u64) -> Vec<Box<dyn Space>> {
-    let mut v: Vec<Box<dyn Space>> = vec![Box::new(Pairs { insts: instances(), triples: false })];
-    if tier.is_thorough() {
-        v.push(Box::new(Pairs { insts: instances(), triples: true }));
-    }
-    v
+    let _ = tier;
+    vec![Box::new(Pairs { insts: instances(), triples: false }), Box::new(Pairs { insts: instances(), triples: true })]
 }
 
 pub fn self_check() -> Result<(), String> {
